@@ -279,10 +279,12 @@ def first_action_on(func, receiver='self'):
     arguments, context set-up that does not involve the object) cannot observe or change its state.  None when a statement
     before it can leave the function or nests statements that mention the receiver only partly."""
     for st in body_without_docstring(func):
+        if is_raise_guard(st) or is_inert_output(st):
+            continue            # reads at most; on the path that continues nothing was changed
         if any(isinstance(n, ast.Name) and n.id == receiver for n in ast.walk(st)):
             return st
-        if any(isinstance(n, (ast.Return, ast.Raise, ast.Yield, ast.YieldFrom)) for n in ast.walk(st)):
-            return None
+        if any(isinstance(n, (ast.Return, ast.Yield, ast.YieldFrom)) for n in ast.walk(st)):
+            return None         # (a `raise` ahead of it - argument validation - ends the call before anything happened)
     return None
 
 
@@ -302,3 +304,21 @@ def dead_callfree_store(func, st):
         return False
     name = st.targets[0].id
     return not any(isinstance(n, ast.Name) and n.id == name and isinstance(n.ctx, ast.Load) for n in ast.walk(func))
+
+
+def is_inert_output(st):
+    """print(..) / warnings.warn(..) / logging calls whose arguments contain no further calls: they change no value of the program"""
+    if not (isinstance(st, ast.Expr) and isinstance(st.value, ast.Call)):
+        return False
+    nm = call_name(st.value) or ''
+    if not (nm in ('print', 'warnings.warn', 'warn') or nm.split('.')[0] in ('logging', 'logger', 'log')):
+        return False
+    inner = [n for a in list(st.value.args) + [k.value for k in st.value.keywords] for n in ast.walk(a) if isinstance(n, (ast.Call, ast.NamedExpr, ast.Yield, ast.Await))]
+    return all(isinstance(n, ast.Call) and (call_name(n) or '') in ('str', 'repr', 'len', 'format', 'float', 'int') or (isinstance(n, ast.Call) and isinstance(n.func, ast.Attribute) and n.func.attr == 'format') for n in inner)
+
+
+def is_raise_guard(st):
+    """`if <call-free test>: raise ..` (argument validation): on the paths that continue, nothing was changed"""
+    return isinstance(st, ast.If) and not st.orelse and st.body and all(isinstance(x, ast.Raise) for x in st.body) \
+        and not any(isinstance(n, (ast.Call, ast.NamedExpr, ast.Await, ast.Yield)) and not (isinstance(n, ast.Call) and (call_name(n) or '') in ('len', 'isinstance', 'np.isfinite', 'np.isnan', 'callable', 'np.any', 'np.all'))
+                    for n in ast.walk(st.test))
